@@ -109,6 +109,13 @@ class CtxGen:
         self.func, self.args, self.kwargs = func, args, kwargs
 
 
+class DefaultDictV(dict):
+    """collections.defaultdict / Counter: a dict with a factory for missing keys."""
+
+    factory: Any = None
+    is_counter = False
+
+
 class GenV:
     """A generator object of a repository generator function: its body runs lazily, one step per
     next(), as a coroutine (own thread, strictly alternating with the consumer)."""
